@@ -4,7 +4,7 @@ From Coq Require Import List Arith ZArith Bool.
 Import ListNotations.
 From Acts.Gen Require Import GenState.
 From Acts.Model Require Import Engine Oracles.
-From Acts.Proofs Require Import C05Proofs.
+From Acts.Proofs Require Import C05Proofs C02Core C02Ops FinalProofs.
 
 (* a rejected complete / submit / skip / remove / abort / error / back / push changes no task, emits
    no message, queues nothing: the engine state is returned as it was, only the result marker is
@@ -37,12 +37,21 @@ Theorem C05_ended_rejects :
   forall e i a opts, is_completed (pstate e) = true -> do_action e i a opts = ret_err e.
 Proof. exact ended_rejects. Qed.
 
-(* in the model an action is one atomic operation: of two identical terminal actions on one act
-   issued one after the other, whatever the scheduler does in between, the second is rejected when
-   the first was accepted and the act is still terminal -- made precise by C05_terminal_rejects and
-   C02_terminal_final.  The real check-then-act race of two client threads inside one `update` is a
-   runtime behaviour the model cannot exhibit (DESIGN.md). *)
-
+(* at-most-once effect, for every reachable engine state e (J e is the engine invariant, which every run satisfies:
+   C05_runs_satisfy_the_invariant): after an accepted complete / submit / remove / skip of an act, whatever happens next
+   -- any operations, any schedule, the same action again at once (two concurrent identical actions: one of them comes
+   first) or later -- the act keeps the state that action gave it and every further action on it but cancel is rejected,
+   changing nothing.  An action is one atomic operation of the model; the check-then-act race of two client threads
+   inside one `update` is a runtime behaviour the model cannot exhibit (DESIGN.md); the held-scheduler corpus repeats
+   actions identically against the real engine. *)
+Theorem C05_closing_action_is_the_last :
+  forall e i a opts cv a' s ops b opts',
+    J e -> admission e i a opts = Some (cv, a') -> closing a' = Some s -> is_cancel b = false ->
+    let e1 := fold_left apply_op ops (do_action e i a opts) in
+    st e1 i = s /\ do_action e1 i b opts' = ret_err e1.
+Proof. exact closing_action_is_the_last. Qed.
+Theorem C05_runs_satisfy_the_invariant : forall ns c0 ops, J (run ns c0 ops).
+Proof. exact run_J. Qed.
 Example C05_example :
   let ns := [ Build_node 0 KWorkflow 0 [(ONormal, 1)] None None false [] dspec [] [] [] [] [] [] false;
               Build_node 1 KStep 1 [(ONormal, 2)] None None false [] dspec [] [] [] [] [] [] false;
@@ -60,3 +69,5 @@ Print Assumptions C05_reject_noop.
 Print Assumptions C05_admission.
 Print Assumptions C05_terminal_rejects.
 Print Assumptions C05_ended_rejects.
+Print Assumptions C05_closing_action_is_the_last.
+Print Assumptions C05_runs_satisfy_the_invariant.
